@@ -82,9 +82,9 @@ def judge(case, impl, model):
         import json
         return "dump(build(decl)) != decl: " + json.dumps(impl["abstraction_mismatch"])[:800], []
     msg = None
-    if case["mode"] == "construct" and model.get("flat"):
+    if case["mode"] == "construct" and (model.get("flat") or model.get("path")):
         msg = S.construct_correspondence(case, impl, model)
-    if case["mode"] == "deser" and model.get("flat"):
+    if case["mode"] == "deser" and (model.get("flat") or model.get("path")):
         msg = msg or S.deser_correspondence(case, impl, model)
     msg = msg or S.readable_correspondence(impl, model)
     return msg, S.oracle(case, impl, model)
